@@ -3,6 +3,7 @@ package props
 
 import (
 	"fmt"
+	"io"
 	"reflect"
 	"regexp"
 	"strings"
@@ -22,16 +23,19 @@ func rtype(v interface{}) reflect.Type { return reflect.TypeOf(v) }
 
 type silent struct{}
 
-func (silent) Info(...interface{})           {}
-func (silent) Warn(...interface{})           {}
-func (silent) Error(...interface{})          {}
-func (silent) Debug(...interface{})          {}
-func (silent) Infof(string, ...interface{})  {}
-func (silent) Warnf(string, ...interface{})  {}
-func (silent) Errorf(string, ...interface{}) {}
-func (silent) Debugf(string, ...interface{}) {}
-func (silent) Printf(string, ...interface{}) {}
-func (silent) Println(...interface{})        {}
+// The library's default logger formats every line (and prints it to stdout). The harness keeps the
+// formatting - a log line that formats a hostile value is part of the behaviour under test - and drops
+// the output.
+func (silent) Info(a ...interface{})             { fmt.Fprint(io.Discard, a...) }
+func (silent) Warn(a ...interface{})             { fmt.Fprint(io.Discard, a...) }
+func (silent) Error(a ...interface{})            { fmt.Fprint(io.Discard, a...) }
+func (silent) Debug(a ...interface{})            { fmt.Fprint(io.Discard, a...) }
+func (silent) Infof(f string, a ...interface{})  { fmt.Fprintf(io.Discard, f, a...) }
+func (silent) Warnf(f string, a ...interface{})  { fmt.Fprintf(io.Discard, f, a...) }
+func (silent) Errorf(f string, a ...interface{}) { fmt.Fprintf(io.Discard, f, a...) }
+func (silent) Debugf(f string, a ...interface{}) { fmt.Fprintf(io.Discard, f, a...) }
+func (silent) Printf(f string, a ...interface{}) { fmt.Fprintf(io.Discard, f, a...) }
+func (silent) Println(a ...interface{})          { fmt.Fprintln(io.Discard, a...) }
 
 func init() { hessian.SetLogger(silent{}) }
 
@@ -85,6 +89,33 @@ func Decode(b []byte, typeMap map[string]reflect.Type) (r DecRes) {
 	}()
 	r.Consumed = rd.Pos
 	r.Calls = rd.Calls
+	if rd.Tripped {
+		r.Runaway = true
+	}
+	return
+}
+
+// DecodeTrickle decodes through a reader whose Read returns at most one byte per call - legal for an
+// io.Reader, and what a network connection may do at any offset. Code that uses Read where it needs
+// ReadFull sees short reads everywhere instead of only at a buffer refill boundary.
+func DecodeTrickle(b []byte, typeMap map[string]reflect.Type) (r DecRes) {
+	rd := guard.NewReader(b)
+	rd.MaxChunk = 1
+	rd.Budget = 64 + 32*len(b)
+	func() {
+		defer func() {
+			if x := recover(); x != nil {
+				if _, ok := x.(guard.Runaway); ok {
+					r.Runaway = true
+					return
+				}
+				r.Panic = fmt.Sprint(x)
+			}
+		}()
+		d := hessian.NewDecoder(nil, typeMap)
+		r.Val, r.Err = d.ReadFrom(rd)
+	}()
+	r.Consumed = rd.Pos
 	if rd.Tripped {
 		r.Runaway = true
 	}
